@@ -195,7 +195,7 @@ Section Refine.
   Notation sstep := (spec_step children fuel).
   Notation srun := (spec_run children fuel).
 
-  Definition is_eval (o : op) : bool := match o with QueryE _ | ReEval _ => true | _ => false end.
+  Definition is_eval (o : op) : bool := match o with QueryE _ | DeclV _ | EvalV _ => true | _ => false end.
   Definition no_eval (h : list op) : bool := forallb (fun o => negb (is_eval o)) h.
 
   (* the model state and the ideal state describe the same world *)
@@ -231,7 +231,7 @@ Section Refine.
     Sim (fst (step s o)) (fst (sstep a o)) /\ out_rel (snd (step s o)) (snd (sstep a o)).
   Proof.
     intros HI Ha He [S1 S2 S3 S4]. destruct HI as [A B C D].
-    destruct o as [c p i|x| |T|T|k|x f y ia ib|]; simpl in *; try discriminate.
+    destruct o as [c p i|x| |T|T|T|k|x f y ia ib|]; simpl in *; try discriminate.
     - split; auto. constructor; simpl; try congruence.
       intros z. rewrite abs_rels_add_node with (L0 := live s); auto.
       + rewrite abs_rels_new_live with (L0 := live s); auto. simpl. intro Hin. apply in_map_iff in Hin.
@@ -253,7 +253,7 @@ Section Refine.
       rewrite Q. destruct (existsb (rel_eqb (x, f, y)) (a_rels a)) eqn:X; simpl; split; auto; constructor; simpl; auto.
       + intros z. rewrite Hr', S4. apply existsb_rel in X. split; [intros [->|?]; auto|auto].
       + intros z. rewrite Hr', S4, in_app_iff. simpl. intuition.
-    - split; auto. constructor; simpl; auto. tauto.
+    - split; auto. constructor; simpl; auto; try (rewrite S3; reflexivity); tauto.
   Qed.
 
   Theorem run_Sim : forall h s a, Inv s -> adm_run s h = true -> no_eval h = true -> Sim s a ->
